@@ -311,7 +311,6 @@ Section Persist.
   Variable parsef : str -> option F.       (* np.float64(token) *)
   Variable fmt8 : Z -> str.                (* "{:08d}".format(n) *)
   Variable parse_int : str -> option Z.    (* int(s) *)
-  Variable fmtd : Z -> str.                (* "{}".format(n) *)
 
   Record pfilter := mkpf {
     f_id : Z; f_ax : str; f_ay : str; f_name : str; f_inv : bool;
@@ -459,12 +458,12 @@ Section Persist.
                             match rows2 rows with
                             | None => (LOther, r')       (* PolygonFilterError *)
                             | Some pts =>
-                                let name := match a_name a with
-                                            | Some n => n
-                                            | None => zs "polygon filter " ++ fmtd uid'
-                                            end in
-                                (LOk (mkpf uid' ax ay name (a_inv a) pts),
-                                 (fst r' ++ [uid'], snd r'))
+                                match a_name a with
+                                | None => (LOther, r')   (* self.name was never set: AttributeError *)
+                                | Some name =>
+                                    (LOk (mkpf uid' ax ay name (a_inv a) pts),
+                                     (fst r' ++ [uid'], snd r'))
+                                end
                             end
                         end
                     end
@@ -556,4 +555,33 @@ Definition run_save (fs : list (Z * str * str * str * Z * list (Z * Z))) : list 
 (* case: (file text, ids registered before, counter before) -> import_all *)
 Definition run_import (c : str * list Z * Z) : list Z :=
   let '(text, ids, counter) := c in
-  enc_res (import_all Z parsef_c parse_int_c dec_signed text (ids, counter)).
+  enc_res (import_all Z parsef_c parse_int_c text (ids, counter)).
+
+(* ---- guards of the round-trip theorem (mirrored by harness/c15.py) --------- *)
+Definition no_nl (s : str) : bool :=
+  forallb (fun c => negb (c =? 10) && negb (c =? 13)) s.
+(* neither the first nor the last character satisfies p *)
+Definition clean_by (p : Z -> bool) (s : str) : bool :=
+  match s with
+  | [] => true
+  | c :: _ => negb (p c) && negb (p (last s 0))
+  end.
+(* a name survives: no line break, no leading/trailing blank (C15-name-blanks) *)
+Definition name_ok (s : str) : bool := no_nl s && clean_by is_space s.
+(* feature names: additionally no upper-case ASCII letter (axes are lower-cased) *)
+Definition axis_ok (s : str) : bool :=
+  name_ok s && forallb (fun c => negb ((65 <=? c) && (c <=? 90))) s.
+(* shape of a printed coordinate: non-empty, no blank, "=", "[" or "]" *)
+Definition token_ok (s : str) : bool :=
+  match s with
+  | [] => false
+  | _ => forallb (fun c => negb (is_space c) && negb (c =? 61) && negb (c =? 91)
+                           && negb (c =? 93)) s
+  end.
+(* shape of a printed integer: non-empty, ASCII digits *)
+Definition digits_ok (s : str) : bool :=
+  match s with [] => false | _ => forallb is_digit s end.
+
+Definition wf_filter {F} (f : pfilter F) : bool :=
+  (0 <=? f_id F f) && axis_ok (f_ax F f) && axis_ok (f_ay F f) && name_ok (f_name F f)
+  && match f_pts F f with [] => false | _ => true end.
